@@ -4,7 +4,7 @@
    the repaired variant, and in the old variant unless the same-node check was already cached in
    the job status when the reconcile started. *)
 From Coq Require Import List ZArith Bool Lia.
-From Verif Require Import C17.Model C17.Spec C17.Hoare C17.Proofs_once.
+From Verif Require Import C17.Model C17.Spec C17.Hoare C17.Proofs_ver C17.Proofs_once.
 Import ListNotations.
 Open Scope Z_scope.
 
@@ -16,7 +16,7 @@ Lemma bound_by_other_go_free c c' r :
 Proof.
   unfold st_bound_by_other. intros E R C. rewrite R, C in E.
   destruct (res_succeeded r); [|reflexivity].
-  cbn in E. unfold abort, wjob, pop in E. destruct (cf c) as [|[|] ?]; cbn in E; discriminate.
+  cbn in E. destruct (abort_stop c RS_FORBIDDEN) as (c0 & A). rewrite A in E. discriminate.
 Qed.
 
 Lemma recheck_go_other p c c' r :
@@ -26,7 +26,7 @@ Proof.
   unfold st_recheck. intros E R C. rewrite R, C in E. cbn in E.
   destruct (rnode r =? 0) eqn:Z0; [left; apply Z.eqb_eq; auto|].
   destruct (rnode r =? pnode p) eqn:Z1; [|right; apply Z.eqb_neq; auto].
-  cbn in E. unfold abort, wjob, pop in E. destruct (cf c) as [|[|] ?]; cbn in E; discriminate.
+  cbn in E. destruct (abort_stop c RS_FORBIDDEN) as (c0 & A). rewrite A in E. discriminate.
 Qed.
 
 Section PassA.
@@ -201,14 +201,14 @@ Qed.
 End PassA.
 
 (* one reconcile of a reservation-first job *)
-Lemma reconcile_guard fx s f x :
+Lemma reconcile_guard fx s f x : W s ->
   direct (sj s) = false -> In x (snd (reconcile fx s f)) -> is_evict x = true ->
   secured (est x) /\ (other_node (est x) \/ (fx = false /\ check_cached (sj s) = true)).
 Proof.
-  intros D. unfold reconcile. destruct (ignored (sj s) (sgen s)); [cbn; tauto|].
-  set (e := mkREnv _ _ _ _). set (c := mkCtx _ _ _ _).
+  intros HW D. destruct (reconcile_cases fx s f HW) as [E|(_ & E)]; rewrite E; [cbn; tauto|].
+  unfold core. set (e := mkREnv _ _ _ _). set (c := mkCtx _ _ _ _ _ _).
   assert (S : sat (IA fx (sj s)) (IA fx (sj s)) (do_migrate fx e c)).
   { apply A_do_migrate. unfold EA, IA, GA. subst c. cbn.
     repeat match goal with |- _ /\ _ => split end; auto. intros ? []. }
-  apply sat_ctx_of in S. destruct S as (_ & G). cbn. intros I E. exact (G x I E).
+  apply sat_ctx_of in S. destruct S as (_ & G). cbn. intros I Ev. exact (G x I Ev).
 Qed.
